@@ -29,6 +29,7 @@ DEFAULT_FEATURES: Dict[str, float] = {
     "spread_sub": 0.2,  # spread of a fragment on an object member at an abstract position
     "spread_with_inline": 0.15,  # spread of a fragment (on the abstract position's type) that contains inline fragments
     "spread_iface_at_object": 0.15,  # spread of a fragment on an interface at an object position (unpacked)
+    "spread_in_inline": 0.25,  # a spread (of a fragment on the member type) inside an inline fragment's body
     "spread_iface": 0.0,  # spread of a fragment on another interface (finding C01-F6)
     "nested_spread": 0.3,  # fragments spreading fragments
     "dir_field": 0.12,  # @skip/@include on a field
@@ -179,6 +180,10 @@ class OpsGen:
             for m in members:
                 if self.p("inline_obj"):
                     sub = self.leaf_fields(m, set(used), depth, at_least_one=True, scope=scope)
+                    if sub and self.p("spread_in_inline"):
+                        fn = self.new_fragment(m, max(depth - 1, 0), allow_inline=False, scope=scope, mixin=True)
+                        if fn:
+                            sub.append({"k": "spread", "name": fn, "dirs": []})
                     if sub:
                         sel.append({"k": "inline", "on": m, "dirs": self.directives("dir_frag"), "sel": sub})
                 elif self.p("spread_sub"):
